@@ -1,5 +1,7 @@
 (** C06 - Undo is the exact inverse of a block, to any reorganisation depth (reference level). *)
 From Utreexo Require Import Spec.Forest Proofs.AbstractModels.
+From Utreexo Require Import Spec.Forest Proofs.AbstractModels Proofs.StumpAdd Proofs.RefTheory.
+From Coq Require Import List Permutation.
 Open Scope N_scope.
 
 (** One block: from the number of additions and the deleted (slot, hash) pairs the pre-block state
@@ -15,3 +17,152 @@ Theorem C06_undo_any_depth : forall (H : Type) (HO : ops H) s bs,
   undo_blocks HO s bs (apply_blocks HO s bs) = s.
 Proof. exact spec_undo_depth. Qed.
 Print Assumptions C06_undo_any_depth.
+
+(** ** merged from C06b.v *)
+
+Theorem C06_equiv_refl : forall (H : Type) (HO : ops H) (s : slots H), equiv HO s s.
+Proof. exact equiv_refl. Qed.
+Print Assumptions C06_equiv_refl.
+
+Theorem C06_equiv_sym : forall (H : Type) (HO : ops H) (s s' : slots H),
+  equiv HO s s' -> equiv HO s' s.
+Proof. exact equiv_sym. Qed.
+Print Assumptions C06_equiv_sym.
+
+Theorem C06_equiv_trans : forall (H : Type) (HO : ops H) (s1 s2 s3 : slots H),
+  equiv HO s1 s2 -> equiv HO s2 s3 -> equiv HO s1 s3.
+Proof. exact equiv_trans. Qed.
+Print Assumptions C06_equiv_trans.
+
+Theorem C06_equiv_roots : forall (H : Type) (HO : ops H) (s s' : slots H),
+  equiv HO s s' -> roots HO s = roots HO s'.
+Proof. exact equiv_roots. Qed.
+Print Assumptions C06_equiv_roots.
+
+Theorem C06_equiv_num_leaves : forall (H : Type) (HO : ops H) (s s' : slots H),
+  equiv HO s s' -> num_leaves s = num_leaves s'.
+Proof. exact equiv_num_leaves. Qed.
+Print Assumptions C06_equiv_num_leaves.
+
+Theorem C06_equiv_layout : forall (H : Type) (HO : ops H) (s s' : slots H),
+  equiv HO s s' -> layout HO s = layout HO s'.
+Proof. exact equiv_layout. Qed.
+Print Assumptions C06_equiv_layout.
+
+Theorem C06_equiv_prove : forall (H : Type) (HO : ops H) (s s' : slots H) (hs : list H),
+  equiv HO s s' -> prove HO s hs = prove HO s' hs.
+Proof. exact equiv_prove. Qed.
+Print Assumptions C06_equiv_prove.
+
+Theorem C06_forest_leaves : forall (H : Type) (HO : ops H) (s : slots H),
+  flat_map entry_leaves (forest HO s) = live s.
+Proof. exact forest_leaves. Qed.
+Print Assumptions C06_forest_leaves.
+
+Theorem C06_equiv_live_eq : forall (H : Type) (HO : ops H) (s s' : slots H),
+  equiv HO s s' -> live s = live s'.
+Proof. exact equiv_live_eq. Qed.
+Print Assumptions C06_equiv_live_eq.
+
+Theorem C06_equiv_live : forall (H : Type) (HO : ops H) (s s' : slots H),
+  equiv HO s s' -> Permutation (live s) (live s').
+Proof. exact equiv_live. Qed.
+Print Assumptions C06_equiv_live.
+
+Theorem C06_compress_kill : forall (H : Type) (HO : ops H) (dels : list H) (k : nat) (seg : slots H),
+  compress HO k (kill HO dels seg) = oprune HO dels (compress HO k seg).
+Proof. exact compress_kill. Qed.
+Print Assumptions C06_compress_kill.
+
+Theorem C06_forest_kill : forall (H : Type) (HO : ops H) (dels : list H) (s : slots H),
+  forest HO (kill HO dels s) = map (prune_entry HO dels) (forest HO s).
+Proof. exact forest_kill. Qed.
+Print Assumptions C06_forest_kill.
+
+Theorem C06_equiv_bisim : forall (H : Type) (HO : ops H) (s s' : slots H) (dels adds : list H),
+  equiv HO s s' -> equiv HO (apply_block HO s dels adds) (apply_block HO s' dels adds).
+Proof. exact equiv_bisim. Qed.
+Print Assumptions C06_equiv_bisim.
+
+Theorem C06_equiv_blocks : forall (H : Type) (HO : ops H) (bs : list (list H * list H)) (s s' : slots H),
+  equiv HO s s' -> equiv HO (apply_blocks HO s bs) (apply_blocks HO s' bs).
+Proof. exact equiv_blocks. Qed.
+Print Assumptions C06_equiv_blocks.
+
+Theorem C06_undo_equiv : forall (H : Type) (HO : ops H) (s : slots H) (dels adds : list H)
+    (s0 : slots H) (bs : list (list H * list H)),
+  equiv HO s0 (spec_undo (apply_block HO s dels adds) (length adds) (dead_slots HO 0 dels s)) ->
+  equiv HO (apply_blocks HO s0 bs) (apply_blocks HO s bs).
+Proof. exact undo_equiv. Qed.
+Print Assumptions C06_undo_equiv.
+
+Theorem C06_undo_equiv_depth : forall (H : Type) (HO : ops H) (s : slots H)
+    (ubs : list (list H * list H)) (s0 : slots H) (bs : list (list H * list H)),
+  equiv HO s0 (undo_blocks HO s ubs (apply_blocks HO s ubs)) ->
+  equiv HO (apply_blocks HO s0 bs) (apply_blocks HO s bs).
+Proof. exact undo_equiv_depth. Qed.
+Print Assumptions C06_undo_equiv_depth.
+
+(** ** the class-level undo: what [Undo] receives determines the previous class *)
+
+(** the forest before a deletion from the forest after it and the (coordinate, hash) pairs of the
+    deleted leaves *)
+Theorem C06_forest_graft : forall (H : Type) (HO : ops H) (dels : list H) (s : slots H),
+  map (graft_entry HO (deleted_leaves HO dels s)) (forest HO (kill HO dels s)) = forest HO s.
+Proof. exact forest_graft. Qed.
+Print Assumptions C06_forest_graft.
+
+Theorem C06_kill_class_injective : forall (H : Type) (HO : ops H) (dels : list H) (s1 s2 : slots H),
+  equiv HO (kill HO dels s1) (kill HO dels s2) ->
+  deleted_leaves HO dels s1 = deleted_leaves HO dels s2 -> equiv HO s1 s2.
+Proof. exact kill_class_injective. Qed.
+Print Assumptions C06_kill_class_injective.
+
+(** one addition on the class and its inverse (the inverse reads the emptiness of the roots) *)
+Theorem C06_unsadd_sadd : forall (H : Type) (HO : ops H) (rf : list (nat * option (ctree H))) (a : H),
+  unsadd (flags rf) (sadd HO rf (Some a)) = rf.
+Proof. exact unsadd_sadd. Qed.
+Print Assumptions C06_unsadd_sadd.
+
+(** a whole block: from the forest after the block, the number of additions, the rows and emptiness
+    of the roots after the deletions, and the coordinates and hashes of the deleted leaves *)
+Theorem C06_class_undo : forall (H : Type) (HO : ops H) (s : slots H) (dels adds : list H),
+  class_undo HO (forest HO (apply_block HO s dels adds)) (shape (rforest HO (kill HO dels s)))
+             (length adds) (deleted_leaves HO dels s) = forest HO s.
+Proof. exact class_undo_spec. Qed.
+Print Assumptions C06_class_undo.
+
+Theorem C06_block_class_injective : forall (H : Type) (HO : ops H) (s1 s2 : slots H)
+    (d1 a1 d2 a2 : list H),
+  equiv HO (apply_block HO s1 d1 a1) (apply_block HO s2 d2 a2) ->
+  length a1 = length a2 ->
+  shape (rforest HO (kill HO d1 s1)) = shape (rforest HO (kill HO d2 s2)) ->
+  deleted_leaves HO d1 s1 = deleted_leaves HO d2 s2 ->
+  equiv HO s1 s2.
+Proof. exact block_class_injective. Qed.
+Print Assumptions C06_block_class_injective.
+
+(** the shape is known to [Undo]: rows = set bits of the previous leaf count; a root is empty after
+    the deletions iff it was empty before or the deleted leaves fill its tree *)
+Theorem C06_shape_rows : forall (H : Type) (HO : ops H) (s : slots H),
+  map fst (shape (rforest HO s)) =
+  filter (StumpAdd.bit (N.of_nat (length s))) (seq 0 (S (Nat.log2 (length s)))).
+Proof. exact shape_rows. Qed.
+Print Assumptions C06_shape_rows.
+
+Theorem C06_shape_kill : forall (H : Type) (HO : ops H) (dels : list H) (s : slots H),
+  shape (rforest HO (kill HO dels s)) =
+  map (fun e : nat * N * option (ctree H) =>
+         (fst (fst e), is_none (snd e) || full (entry_dels HO dels e) (fst (fst e))))
+      (rev (forest HO s)).
+Proof. exact shape_kill. Qed.
+Print Assumptions C06_shape_kill.
+
+(** positions carry the same information as coordinates *)
+Theorem C06_deleted_leaves_by_pos : forall (H : Type) (HO : ops H) (d1 d2 : list H) (s1 s2 : slots H),
+  num_leaves s1 = num_leaves s2 ->
+  map (dpos (rows_of (num_leaves s1))) (deleted_leaves HO d1 s1) =
+  map (dpos (rows_of (num_leaves s1))) (deleted_leaves HO d2 s2) ->
+  deleted_leaves HO d1 s1 = deleted_leaves HO d2 s2.
+Proof. exact deleted_leaves_by_pos. Qed.
+Print Assumptions C06_deleted_leaves_by_pos.
